@@ -10,7 +10,7 @@ RULE = ("one-shot: full product key length {16,32} x key pattern x nonce x AAD l
         "decrypt_mut(l), fork; states merged on (phase, aad bytes, data bytes, observed tag-of-clone), run until the frontier is empty within the "
         "byte bounds, so every partition of AAD and data into alphabet pieces is covered; in every state the tag of a finalized clone must equal "
         "the model tag of the bytes so far; non-trivial = some non-empty AAD or data; distinct = program text"
-        " Also: every plaintext length 0..=200 and every AAD length 0..=80 one-shot; component shards: the Poly1305 limb-steering / corner-state / crafted inputs of C05 and the counter-bit and seek shards of C03 (the AEAD's MAC key and block counter cannot be steered through the AEAD itself); the corpus again on the checked-arithmetic and native builds.")
+        " Also: every plaintext length 0..=200 and every AAD length 0..=80 one-shot; buffer placement (AAD and second data piece at every address offset mod 8, +8, 16, 33; lengths 1..=24, 30, 64, 65 after a first piece of every class mod 8); component shards: the Poly1305 limb-steering / corner-state / crafted inputs of C05 and the counter-bit and seek shards of C03 (the AEAD's MAC key and block counter cannot be steered through the AEAD itself); the corpus again on the checked-arithmetic and native builds.")
 ASSUMPTIONS = ["python RFC 8439 AEAD model (validated on 2.8.2) over the ChaCha model of C03", "128-bit keys use Bernstein's 16-byte constants, as the statement requires",
                "content of key/nonce/AAD/plaintext from the pattern alphabet"]
 
@@ -32,7 +32,7 @@ def extra_builds(tier):
 def bounds(tier):
     return {"oneshot_shapes": list(SHAPES), "incremental_aad_bytes": 67 if tier == "thorough" else 33,
             "incremental_data_bytes": 260 if tier == "thorough" else 130, "fork_tree_depth": 6 if tier == "thorough" else 5,
-            "every_length": "plaintext 0..=200 (AAD 0, 13), AAD 0..=80", "components": "C05 limb steering / corner / crafted inputs; C03 counter-bit and seek shards"}
+            "every_length": "plaintext 0..=200 (AAD 0, 13), AAD 0..=80", "buffer_address_offsets": "0..=8, 16, 33", "components": "C05 limb steering / corner / crafted inputs; C03 counter-bit and seek shards"}
 
 
 def validate_models(tier):
@@ -180,6 +180,7 @@ def _own_shards(tier):
             sh.append(("shard_graph", (r, 16, "D")))
     for r in (8, 12, 20):
         sh.append(("shard_fork", (r, 32)))
+    sh.append(("shard_align", 20))
     return sh
 
 
@@ -217,6 +218,35 @@ def shard_everylen(rounds, tier):
         cases.append((["aead_new s0 %d %s %s %s" % (rounds, P(6, 2, 32), P(7, 5, 12), P(2, 7, al) if al else "h:"), "aclone s0 s1",
                        "aead_enc s0 %s" % (P(5, 1, pl) if pl else "h:"), "aead_dec s1 %s %s" % (H(ct), H(tag))],
                       ["-", "-", "%s.%s" % (obs_of(ct), obs_of(tag)), "T.%s" % obs_of(pt)], None))
+    ck.run(cases, nontrivial=_nt)
+    ck.stats.states = len(cases) + 1
+    return ck.stats
+
+
+def shard_align(rounds, tier):
+    """where the caller's buffers lie (as C04's placement shard, through the AEAD): AAD, and the second plaintext / ciphertext piece of
+    every length 1..=24 (+30, 64, 65) after a first piece of every length class modulo 8, in buffers starting at every address offset
+    modulo 8 (+8, 16, 33) from a 64-byte boundary; encrypt in place, decrypt with separate buffers, and the one-shot interface"""
+    from props.c04 import ALIGNS
+    ck = core.Checker(PROPERTY_ID)
+    cases = []
+    key, nonce, aad = pat(6, 2, 32), pat(7, 5, 12), pat(2, 7, 13)
+    new = "actx_new s0 %d %s %s" % (rounds, P(6, 2, 32), P(7, 5, 12))
+    for pre in (0, 1, 3, 5, 8, 13):
+        for n in tuple(range(1, 25)) + (30, 64, 65):
+            pt = pat(5, 1, pre) + pat(5, 40, n)
+            ct, tag = poly.aead_encrypt(key, nonce, aad, pt, rounds)
+            for a in ALIGNS:
+                first_e = ["aenc_mut s0 %s" % P(5, 1, pre)] if pre else []
+                first_d = ["adec s1 %s" % H(ct[:pre])] if pre else []
+                ops = [new, "actx_aad s0 @%d:%s" % ((a + 3) % 8, P(2, 7, 13)), "aclone s0 s1", "actx_toenc s0", "actx_todec s1"] + first_e + \
+                      ["aenc_mut s0 @%d:%s" % (a, P(5, 40, n)), "aenc_fin s0"] + first_d + ["adec s1 @%d:%s" % (a, H(ct[pre:])), "adec_fin s1 %s" % H(tag)]
+                exp = ["-"] * 5 + ([obs_of(ct[:pre])] if pre else []) + [obs_of(ct[pre:]), obs_of(tag)] + ([obs_of(pt[:pre])] if pre else []) + [obs_of(pt[pre:]), "T"]
+                cases.append((ops, exp, None))
+                if pre == 0:
+                    cases.append((["aead_new s0 %d %s %s @%d:%s" % (rounds, P(6, 2, 32), P(7, 5, 12), (a + 3) % 8, P(2, 7, 13)), "aclone s0 s1",
+                                   "aead_enc s0 @%d:%s" % (a, P(5, 40, n)), "aead_dec s1 @%d:%s @%d:%s" % (a, H(ct), (a + 5) % 8, H(tag))],
+                                  ["-", "-", "%s.%s" % (obs_of(ct), obs_of(tag)), "T.%s" % obs_of(pt)], None))
     ck.run(cases, nontrivial=_nt)
     ck.stats.states = len(cases) + 1
     return ck.stats
